@@ -235,6 +235,15 @@ def one_server_run(ctx, kind, placement, further_kind, orders_seen, it):
            "plugin_conftest": "myplug/conftest.py"}[kind]
     files = {rel: disk, "pkg/test_other.py": HDR + fxs(["shared"], "other") + "def test_o(shared):\n    pass\n",
              "conftest.py": HDR + fxs(["shared"], "root")}
+    if kind == "plugin_conftest":
+        # F is a conftest.py that the entry-point module of an editable in-workspace plugin star-imports: the scan's import
+        # phase marks it as a plugin module and analyses it once more, long after the parallel phase visited it
+        sp = ".venv/lib/python3.12/site-packages"
+        files.update({"myplug/__init__.py": "", "myplug/plugin.py": "from .conftest import *\n" + HDR + fxs(["from_plugin_mod"], "plugin"),
+                      "myplug/test_in_pkg.py": "def test_in_pkg(shared):\n    pass\n",
+                      f"{sp}/myplug-0.1.dist-info/entry_points.txt": "[pytest11]\nmp = myplug.plugin\n",
+                      f"{sp}/myplug-0.1.dist-info/direct_url.json": json.dumps({"url": "file://" + root, "dir_info": {"editable": True}}),
+                      f"{sp}/__editable__.myplug-0.1.pth": root + "\n", ".venv/pyvenv.cfg": "home = /usr/bin\n"})
     if kind == "plugin_pkg":
         # the project is itself a pytest plugin (package entry point), installed editable into its own venv; F is a test
         # module inside the plugin package: the scan's later venv / plugin phase walks that package again
@@ -254,15 +263,6 @@ def one_server_run(ctx, kind, placement, further_kind, orders_seen, it):
     env = {"VERIF_EVENT_LOG": evlog, "VERIF_DELAY": f"{ctx.seed + it}:200000"}
     if placement not in ("unsynchronised", "burst"):
         env.update({"VERIF_SCAN_GATE": gate, "VERIF_SCAN_GATE_MATCH": "/" + rel})
-    if kind == "plugin_conftest":
-        # F is a conftest.py that the entry-point module of an editable in-workspace plugin star-imports: the scan's import
-        # phase marks it as a plugin module and analyses it once more, long after the parallel phase visited it
-        sp = ".venv/lib/python3.12/site-packages"
-        files.update({"myplug/__init__.py": "", "myplug/plugin.py": "from .conftest import *\n" + HDR + fxs(["from_plugin_mod"], "plugin"),
-                      "myplug/test_in_pkg.py": "def test_in_pkg(shared):\n    pass\n",
-                      f"{sp}/myplug-0.1.dist-info/entry_points.txt": "[pytest11]\nmp = myplug.plugin\n",
-                      f"{sp}/myplug-0.1.dist-info/direct_url.json": json.dumps({"url": "file://" + root, "dir_info": {"editable": True}}),
-                      f"{sp}/__editable__.myplug-0.1.pth": root + "\n", ".venv/pyvenv.cfg": "home = /usr/bin\n"})
     hold_phase = kind in ("plugin_pkg", "plugin_conftest") and placement == "visit_first"
     if hold_phase:
         # the editor's change arrives after the scan's parallel phase visited F but before its venv / plugin phase
